@@ -29,7 +29,7 @@ ASSUMPTIONS = [
     "dtype zoo limited to int/float/bool/datetime64[s]",
 ]
 
-FULL = ["a1", "a2", "ab", "a0", "kf", "km", "kl", "ks", "c", "sx", "si", "pl", "pd", "al", "ix", "ad"]
+FULL = ["a1", "a2", "ab", "a0", "kf", "km", "kl", "ks", "c", "sx", "si", "pl", "pd", "al", "ix", "ad", "in"]
 CORE = ["a1", "a2", "kf", "kl", "c"]
 WRITE = ["a1", "a2", "kf", "kl", "c", "w"]
 T0 = np.datetime64("2020-01-01T00:00:00", "s")
@@ -94,8 +94,8 @@ def living_idx(st):
 
 
 def enabled(st, op):
-    liv = living_idx(st) if op in ("kf", "km", "kl", "ks", "pl") else None
-    if op in ("kf", "kl", "ks", "pl"):
+    liv = living_idx(st) if op in ("kf", "km", "kl", "ks", "pl", "in") else None
+    if op in ("kf", "kl", "ks", "pl", "in"):
         return len(liv) >= 1
     if op == "km":
         return len(liv) >= 3
@@ -148,6 +148,8 @@ def apply_impl(st, op):
     elif op == "ix":  # in-place update through a local reference, as the tracker does with Z
         x = st["X"]
         x += 0.5
+    elif op == "in":  # an IBM settles the first living particle: alive but inactive
+        st["active"][living_idx(st)[0]] = False
     elif op == "ad":  # append relying on the defaults after earlier appends gave explicit values
         st.append(X=p + 0.75, Y=1.0, Z=2.0, tag=77, rt=T0 + 5)
     else:
@@ -217,6 +219,8 @@ class Ref:
                 d["X"] += 0.5
         elif op == "ad":
             self.add(p + 0.75, 1.0, 2.0, 77, T0 + 5)
+        elif op == "in":
+            self.inst[self.liv()[0]]["active"] = False
 
     def nontrivial(self):
         gone = self.npid - len(self.liv())
